@@ -141,6 +141,40 @@ func NewFormatDecoder(r io.Reader) FormatDecoder {
 	return FormatDecoder{r: reader{r}}
 }
 
+// maxElementSize bounds the announced size of a variable-size element so that it
+// can be used in int64 arithmetic. The body is read incrementally, memory use is
+// bounded by the data actually present in the stream.
+const maxElementSize = math.MaxInt32
+
+// readBody reads the variable part of an element whose header announces hdr.Size
+// bytes in total of which fixed bytes (header and fixed fields) are already
+// accounted for. At least min bytes have to follow.
+func (d *FormatDecoder) readBody(hdr FormatHeader, fixed, min uint64) ([]byte, error) {
+	if hdr.Size < fixed+min || hdr.Size > maxElementSize {
+		return nil, InvalidFormat{"invalid element size"}
+	}
+	var buf bytes.Buffer
+	if _, err := io.CopyN(&buf, d.r, int64(hdr.Size-fixed)); err != nil {
+		if err == io.EOF {
+			err = io.ErrUnexpectedEOF
+		}
+		return nil, err
+	}
+	return buf.Bytes(), nil
+}
+
+// readString reads a NUL-terminated string body and strips the terminator.
+func (d *FormatDecoder) readString(hdr FormatHeader, fixed uint64) (string, error) {
+	b, err := d.readBody(hdr, fixed, 1)
+	if err != nil {
+		return "", err
+	}
+	if b[len(b)-1] != 0 {
+		return "", InvalidFormat{"string not terminated"}
+	}
+	return string(b[:len(b)-1]), nil
+}
+
 // Next returns the next format element from the stream. If an element
 // contains a reader, that reader should be used before any subsequent calls as
 // it'll be invalidated then. Returns nil when the end is reached.
@@ -195,58 +229,46 @@ func (d *FormatDecoder) Next() (interface{}, error) {
 		return e, nil
 
 	case CaFormatUser:
-		b := make([]byte, hdr.Size-16)
-		if _, err = io.ReadFull(d.r, b); err != nil {
+		str, err := d.readString(hdr, 16)
+		if err != nil {
 			return nil, err
 		}
-		// Strip off the 0 byte
-		b = b[:len(b)-1]
-		return FormatUser{FormatHeader: hdr, Name: string(b)}, nil
+		return FormatUser{FormatHeader: hdr, Name: str}, nil
 
 	case CaFormatGroup:
-		b := make([]byte, hdr.Size-16)
-		if _, err = io.ReadFull(d.r, b); err != nil {
+		str, err := d.readString(hdr, 16)
+		if err != nil {
 			return nil, err
 		}
-		// Strip off the 0 byte
-		b = b[:len(b)-1]
-		return FormatGroup{FormatHeader: hdr, Name: string(b)}, nil
+		return FormatGroup{FormatHeader: hdr, Name: str}, nil
 
 	case CaFormatXAttr:
-		b := make([]byte, hdr.Size-16)
-		if _, err = io.ReadFull(d.r, b); err != nil {
+		str, err := d.readString(hdr, 16)
+		if err != nil {
 			return nil, err
 		}
-		// Strip off the 0 byte
-		b = b[:len(b)-1]
-		return FormatXAttr{FormatHeader: hdr, NameAndValue: string(b)}, nil
+		return FormatXAttr{FormatHeader: hdr, NameAndValue: str}, nil
 
 	case CaFormatSELinux:
-		b := make([]byte, hdr.Size-16)
-		if _, err = io.ReadFull(d.r, b); err != nil {
+		str, err := d.readString(hdr, 16)
+		if err != nil {
 			return nil, err
 		}
-		// Strip off the 0 byte
-		b = b[:len(b)-1]
-		return FormatSELinux{FormatHeader: hdr, Label: string(b)}, nil
+		return FormatSELinux{FormatHeader: hdr, Label: str}, nil
 
 	case CaFormatFilename:
-		b := make([]byte, hdr.Size-16)
-		if _, err = io.ReadFull(d.r, b); err != nil {
+		str, err := d.readString(hdr, 16)
+		if err != nil {
 			return nil, err
 		}
-		// Strip off the 0 byte
-		b = b[:len(b)-1]
-		return FormatFilename{FormatHeader: hdr, Name: string(b)}, nil
+		return FormatFilename{FormatHeader: hdr, Name: str}, nil
 
 	case CaFormatSymlink:
-		b := make([]byte, hdr.Size-16)
-		if _, err = io.ReadFull(d.r, b); err != nil {
+		str, err := d.readString(hdr, 16)
+		if err != nil {
 			return nil, err
 		}
-		// Strip off the 0 byte
-		b = b[:len(b)-1]
-		return FormatSymlink{FormatHeader: hdr, Target: string(b)}, nil
+		return FormatSymlink{FormatHeader: hdr, Target: str}, nil
 
 	case CaFormatDevice:
 		if hdr.Size != 32 {
@@ -272,13 +294,16 @@ func (d *FormatDecoder) Next() (interface{}, error) {
 		return FormatPayload{FormatHeader: hdr, Data: r}, nil
 
 	case CaFormatFCaps:
-		b := make([]byte, hdr.Size-16)
-		if _, err = io.ReadFull(d.r, b); err != nil {
+		b, err := d.readBody(hdr, 16, 0)
+		if err != nil {
 			return nil, err
 		}
 		return FormatFCaps{FormatHeader: hdr, Data: b}, nil
 
 	case CaFormatACLUser:
+		if hdr.Size < 33 {
+			return nil, InvalidFormat{}
+		}
 		e := FormatACLUser{FormatHeader: hdr}
 		e.UID, err = d.r.ReadUint64()
 		if err != nil {
@@ -288,16 +313,16 @@ func (d *FormatDecoder) Next() (interface{}, error) {
 		if err != nil {
 			return nil, err
 		}
-		b := make([]byte, hdr.Size-32)
-		if _, err = io.ReadFull(d.r, b); err != nil {
+		e.Name, err = d.readString(hdr, 32)
+		if err != nil {
 			return nil, err
 		}
-		// Strip off the 0 byte
-		b = b[:len(b)-1]
-		e.Name = string(b)
 		return e, nil
 
 	case CaFormatACLGroup:
+		if hdr.Size < 33 {
+			return nil, InvalidFormat{}
+		}
 		e := FormatACLGroup{FormatHeader: hdr}
 		e.GID, err = d.r.ReadUint64()
 		if err != nil {
@@ -307,13 +332,10 @@ func (d *FormatDecoder) Next() (interface{}, error) {
 		if err != nil {
 			return nil, err
 		}
-		b := make([]byte, hdr.Size-32)
-		if _, err = io.ReadFull(d.r, b); err != nil {
+		e.Name, err = d.readString(hdr, 32)
+		if err != nil {
 			return nil, err
 		}
-		// Strip off the 0 byte
-		b = b[:len(b)-1]
-		e.Name = string(b)
 		return e, nil
 
 	case CaFormatACLGroupObj:
@@ -345,10 +367,13 @@ func (d *FormatDecoder) Next() (interface{}, error) {
 		return e, nil
 
 	case CaFormatGoodbye:
+		if hdr.Size < 16+24 || (hdr.Size-16)%24 != 0 || hdr.Size > maxElementSize {
+			return nil, InvalidFormat{"invalid goodbye size"}
+		}
 		n := (hdr.Size - 16) / 24
-		items := make([]FormatGoodbyeItem, n)
-		e := FormatGoodbye{FormatHeader: hdr, Items: items}
+		var items []FormatGoodbyeItem
 		for i := uint64(0); i < n; i++ {
+			items = append(items, FormatGoodbyeItem{})
 			items[i].Offset, err = d.r.ReadUint64()
 			if err != nil {
 				return nil, err
@@ -366,7 +391,7 @@ func (d *FormatDecoder) Next() (interface{}, error) {
 		if len(items) < 1 || items[len(items)-1].Hash != CaFormatGoodbyeTailMarker {
 			return nil, InvalidFormat{"tail marker not found"}
 		}
-		return e, nil
+		return FormatGoodbye{FormatHeader: hdr, Items: items}, nil
 
 	case CaFormatIndex:
 		e := FormatIndex{FormatHeader: hdr}
